@@ -10,15 +10,27 @@
            | 'L' nm l1 (l2|'-') disphex           lref to labels l1[,l2] of the G function (0..2)
            | 'E' nm fn                            expr data, fn = index of an F item
            | 'F' ty prefix-expr                   expression function
-           | 'G'                                  function g(sel, x): sel=0: jmpi x; sel=k+1: laddr of L<k>; L<k>: ret 100+k
+           | 'G' {body}                           function g(sel, x): sel=0: jmpi x; sel=k+1: laddr of L<k>; then the labels
+                                                  L0, L1, ... in this order, L<k> followed by its body (one body per label,
+                                                  1..8 labels; no body given = three labels `r r r`), then `ret 99`
+   body   := 'r'      ret 100+k
+           | 'f'      nothing: the next label (or the final ret 99) is adjacent
+           | 'n'      an ordinary insn (add), then fall through
+           | 'j'N     jmp L<N>                    (a label whose only insn is an unconditional jump)
+           | 'b'N     beq L<N>, sel, 0            (a conditional branch that is always taken when entered by jmpi)
+           | 'i'N     laddr p, L<N>; jmpi p
+           | 's'N     switch sel, L<N>, L<(N+1) mod labels>
            | 'Oi' | 'Op' | 'Of' def | 'Ox' def    import / proto / forward of def / export of def
    nm     := '-' | number                         anonymous, or the name d<number>
    expr   := c<hex> | a<idx> | (+|-|*|&|'|'|^) e e | n e | m e (load: not an expression function) | s8|s16|s32|u8|u16|u32 e | (<|>|]) e k | f<hex>
 
-   Output: `ok A idx:addr ... [L<k>:addr ...]` (address of every item that has one; label addresses by laddr) ` P idx@head+off ...` (every
+   Output: `ok A idx:addr ... [L<k>:addr ... K<idx>:addr1:addr2 ...]` (address of every item that has one; label addresses
+   by laddr; per lref item the addresses of its two labels -- of the labels of the same place, see compute_places, the
+   ones that explain its value) ` P idx@head+off ...` (every
    data-like item: nearest preceding item with section_head_p, and the distance from it)
    ` S head:allocated:hexbytes ...` (per head: size passed to malloc and the bytes found)
-   ` J:ok|bad` (jmpi to each label address obtained with laddr reaches the label) ` LR idx:ok|bad`
+   ` J:ok|bad` (jmpi to each label address obtained with laddr reaches the label: the value returned is the one
+   the bodies prescribe, see expected_ret) ` LR idx:ok|bad`
    (each lref item holds label address + disp, or the label difference + disp, against the laddr
    addresses of the same engine, read after g was prepared for execution).  On an error: `E:<code>`. */
 #include <stdio.h>
@@ -32,21 +44,27 @@
 
 #define MAXITEMS 256
 #define MAXELS 64
+#define MAXLAB 8
 
 static jmp_buf err_jmp;
 static int err_code;
+static char err_msg[200];
 static void MIR_NO_RETURN err_func (MIR_error_type_t t, const char *fmt, ...) {
+  /* the format only: MIR_finish on a half-built context passes a name it has already freed */
+  snprintf (err_msg, sizeof (err_msg), "%s", fmt);
+  for (char *c = err_msg; *c; c++)
+    if (*c == ' ' || *c == '\n') *c = '_';
   err_code = (int) t;
   longjmp (err_jmp, 1);
 }
 static const char *err_name (int e) {
-  static char b[32];
+  static char b[260];
   switch (e) {
   case MIR_binary_io_error: return "binary_io";
   case MIR_wrong_lref_error: return "wrong_lref";
   case MIR_repeated_decl_error: return "repeated_decl";
   case MIR_undeclared_op_ref_error: return "undeclared_op_ref";
-  default: sprintf (b, "err%d", e); return b;
+  default: snprintf (b, sizeof (b), "err%d(%s)", e, err_msg); return b;
   }
 }
 
@@ -116,6 +134,8 @@ struct pitem {
 };
 static struct pitem items[MAXITEMS];
 static int nitems;
+static int gnlab;                 /* number of labels of the G function */
+static char gbody[MAXLAB][8];     /* body of each label */
 static char extbuf[MAXITEMS][16];
 
 static int parse_ty (const char *s, MIR_type_t *t) {
@@ -164,7 +184,7 @@ static int parse_item (char *s, struct pitem *p) {
     p->expr = s + 1 + off;
     return 1;
   }
-  for (char *t = strtok_r (s, " \t", &save); t != NULL && n < 8; t = strtok_r (NULL, " \t", &save)) w[n++] = t;
+  for (char *t = strtok_r (s, " \t", &save); t != NULL && n < 2 + MAXLAB; t = strtok_r (NULL, " \t", &save)) w[n++] = t;
   if (n == 0) return 0;
   if (w[0][0] == 'O') {
     switch (w[0][1]) {
@@ -177,6 +197,18 @@ static int parse_item (char *s, struct pitem *p) {
   }
   if (w[0][0] == 'G') {
     p->k = K_G;
+    if (n == 1) {
+      gnlab = 3;
+      for (int k = 0; k < 3; k++) strcpy (gbody[k], "r");
+    } else {
+      if (n - 1 > MAXLAB) return 0;
+      gnlab = n - 1;
+      for (int k = 0; k < gnlab; k++) {
+        if (strlen (w[k + 1]) > 3 || strchr ("rfnjbis", w[k + 1][0]) == NULL) return 0;
+        if (strchr ("jbis", w[k + 1][0]) != NULL && (w[k + 1][1] < '0' || w[k + 1][1] - '0' >= gnlab)) return 0;
+        strcpy (gbody[k], w[k + 1]);
+      }
+    }
     return 1;
   }
   if (n < 2) return 0;
@@ -320,9 +352,79 @@ static void build_func (MIR_context_t ctx, int idx) {
   MIR_finish_func (ctx);
 }
 
-static MIR_label_t glabels[3];
+static MIR_label_t glabels[MAXLAB];
+/* where control goes from label k: -1 = returns 100+k, gnlab = the final ret 99, else the label reached next */
+static int next_of (int k) {
+  switch (gbody[k][0]) {
+  case 'r': return -1;
+  case 'f': case 'n': return k + 1;
+  default: return gbody[k][1] - '0';
+  }
+}
+/* Which labels are ONE PLACE.  The address of a label is the address of the code that follows it; labels between
+   which no instruction is executed are one place, and every engine is free to give any of them the address of any
+   other (mir.c canonicalises references to adjacent labels to the last one -- but laddr operands before and lref items
+   after it has deleted no-op jumps --, the generator deletes jumps to the next block and may put alignment padding
+   between the labels of one place, the lazy basic-block generator gives every block version a thunk of its own).
+   A body is NOTHING (nop_body) when it is empty, or a jump / branch that lands where falling through would land anyway:
+   one of the labels its target leads to through unconditional jumps only (threaded) lies behind it with nothing in
+   between.  Least fixed point; two labels are one place iff every body between them is nothing.
+   A jump to somewhere else IS an instruction: `L1: jmp L2` with L2 elsewhere keeps L1 and L2 apart. */
+static int nop_body[MAXLAB];
+static void compute_places (void) {
+  for (int k = 0; k < gnlab; k++) nop_body[k] = 0;
+  for (int changed = 1; changed;) {
+    changed = 0;
+    for (int k = 0; k < gnlab; k++) {
+      int c = gbody[k][0], nop = 0;
+      if (nop_body[k]) continue;
+      if (c == 'f') {
+        nop = 1;
+      } else if (c == 'j' || c == 'b') {
+        int cur = gbody[k][1] - '0';
+        for (int depth = 0; depth <= 2 * MAXLAB && !nop; depth++) {
+          int m = cur; /* every label of cur's place is a landing point */
+          for (;;) {
+            int between = 1;
+            for (int q = k + 1; q < m; q++)
+              if (!nop_body[q]) between = 0;
+            if (m > k && between) nop = 1;
+            if (m + 1 < gnlab && nop_body[m])
+              m++;
+            else
+              break;
+          }
+          if (gbody[m][0] != 'j') break; /* the place's code starts with an unconditional jump: follow it */
+          cur = gbody[m][1] - '0';
+        }
+      }
+      if (nop) nop_body[k] = changed = 1;
+    }
+  }
+}
+static int same_place (int a, int b) {
+  if (a > b) return same_place (b, a);
+  for (int q = a; q < b; q++)
+    if (!nop_body[q]) return 0;
+  return 1;
+}
+/* the last label of k's place (the one mir.c's canonicalisation names) */
+static int place_of (int k) {
+  while (k + 1 < gnlab && nop_body[k]) k++;
+  return k;
+}
+/* value g (0, address of L<k>) must return; -1 if the bodies form a cycle (then it is not called) */
+static int expected_ret (int k) {
+  for (int steps = 0; steps <= gnlab; steps++) {
+    if (k >= gnlab) return 99;
+    int nx = next_of (k);
+    if (nx < 0) return 100 + k;
+    k = nx;
+  }
+  return -1;
+}
 /* g (sel, x): sel == 0: jmpi x;  sel == k+1: return the address of label k (laddr);
-   L<k>: ret 100+k */
+   then L0: body0; L1: body1; ...; ret 99 */
 static void build_g (MIR_context_t ctx, int idx) {
   char name[32];
   MIR_type_t i64 = MIR_T_I64;
@@ -332,27 +434,55 @@ static void build_g (MIR_context_t ctx, int idx) {
   items[idx].it = g;
   MIR_reg_t sel = MIR_reg (ctx, "sel", g->u.func), x = MIR_reg (ctx, "x", g->u.func);
   MIR_reg_t p = MIR_new_func_reg (ctx, g->u.func, MIR_T_I64, "p");
-  MIR_label_t jump = MIR_new_label (ctx), a[3];
-  for (int k = 0; k < 3; k++) a[k] = MIR_new_label (ctx);
+  MIR_label_t jump = MIR_new_label (ctx), a[MAXLAB];
+  for (int k = 0; k < gnlab; k++) a[k] = MIR_new_label (ctx);
   MIR_append_insn (ctx, g,
                    MIR_new_insn (ctx, MIR_BEQ, MIR_new_label_op (ctx, jump), MIR_new_reg_op (ctx, sel),
                                  MIR_new_int_op (ctx, 0)));
-  for (int k = 0; k < 2; k++)
+  for (int k = 0; k < gnlab - 1; k++)
     MIR_append_insn (ctx, g,
                      MIR_new_insn (ctx, MIR_BEQ, MIR_new_label_op (ctx, a[k]), MIR_new_reg_op (ctx, sel),
                                    MIR_new_int_op (ctx, k + 1)));
-  for (int k = 2; k >= 0; k--) {
+  for (int k = gnlab - 1; k >= 0; k--) {
     MIR_append_insn (ctx, g, a[k]);
     MIR_append_insn (ctx, g,
                      MIR_new_insn (ctx, MIR_LADDR, MIR_new_reg_op (ctx, p), MIR_new_label_op (ctx, glabels[k])));
     MIR_append_insn (ctx, g, MIR_new_ret_insn (ctx, 1, MIR_new_reg_op (ctx, p)));
   }
   MIR_append_insn (ctx, g, jump);
+  MIR_append_insn (ctx, g, MIR_new_insn (ctx, MIR_MOV, MIR_new_reg_op (ctx, p), MIR_new_int_op (ctx, 0)));
   MIR_append_insn (ctx, g, MIR_new_insn (ctx, MIR_JMPI, MIR_new_reg_op (ctx, x)));
-  for (int k = 0; k < 3; k++) {
+  for (int k = 0; k < gnlab; k++) {
+    int t = gbody[k][1] - '0';
     MIR_append_insn (ctx, g, glabels[k]);
-    MIR_append_insn (ctx, g, MIR_new_ret_insn (ctx, 1, MIR_new_int_op (ctx, 100 + k)));
+    switch (gbody[k][0]) {
+    case 'r': MIR_append_insn (ctx, g, MIR_new_ret_insn (ctx, 1, MIR_new_int_op (ctx, 100 + k))); break;
+    case 'f': break;
+    case 'n':
+      MIR_append_insn (ctx, g,
+                       MIR_new_insn (ctx, MIR_ADD, MIR_new_reg_op (ctx, p), MIR_new_reg_op (ctx, p),
+                                     MIR_new_int_op (ctx, k + 1)));
+      break;
+    case 'j': MIR_append_insn (ctx, g, MIR_new_insn (ctx, MIR_JMP, MIR_new_label_op (ctx, glabels[t]))); break;
+    case 'b':
+      MIR_append_insn (ctx, g,
+                       MIR_new_insn (ctx, MIR_BEQ, MIR_new_label_op (ctx, glabels[t]), MIR_new_reg_op (ctx, sel),
+                                     MIR_new_int_op (ctx, 0)));
+      break;
+    case 'i':
+      MIR_append_insn (ctx, g,
+                       MIR_new_insn (ctx, MIR_LADDR, MIR_new_reg_op (ctx, p), MIR_new_label_op (ctx, glabels[t])));
+      MIR_append_insn (ctx, g, MIR_new_insn (ctx, MIR_JMPI, MIR_new_reg_op (ctx, p)));
+      break;
+    case 's': {
+      MIR_op_t sops[3] = {MIR_new_reg_op (ctx, sel), MIR_new_label_op (ctx, glabels[t]),
+                          MIR_new_label_op (ctx, glabels[(t + 1) % gnlab])};
+      MIR_append_insn (ctx, g, MIR_new_insn_arr (ctx, MIR_SWITCH, 3, sops));
+      break;
+    }
+    }
   }
+  MIR_append_insn (ctx, g, MIR_new_ret_insn (ctx, 1, MIR_new_int_op (ctx, 99)));
   MIR_finish_func (ctx);
 }
 
@@ -388,6 +518,8 @@ static void run_case (char *line) {
     if (sscanf (line, " %c%c", &iface, &lv) == 2 && lv >= '0' && lv <= '3') level = lv - '0';
   }
   nitems = 0;
+  gnlab = 3;
+  for (int k = 0; k < 3; k++) strcpy (gbody[k], "r");
   char *save;
   /* split on ';' first (parse_item uses strtok_r itself) */
   char *parts[MAXITEMS];
@@ -422,7 +554,7 @@ static void run_case (char *line) {
   }
   int have_g = -1;
   MIR_module_t m = MIR_new_module (ctx, "m");
-  for (int k = 0; k < 3; k++) glabels[k] = MIR_new_label (ctx);
+  for (int k = 0; k < gnlab; k++) glabels[k] = MIR_new_label (ctx);
   MIR_type_t i64 = MIR_T_I64;
   for (int i = 0; i < nitems; i++) {
     struct pitem *p = &items[i];
@@ -447,6 +579,10 @@ static void run_case (char *line) {
       }
       p->it = MIR_new_ref_data (ctx, nmp, items[p->target].it, (int64_t) p->disp); break;
     case K_LREF:
+      if (p->l1 < 0 || p->l1 >= gnlab || p->l2 >= gnlab) {
+        printf ("badcase lref %d\n", i);
+        return;
+      }
       p->it = MIR_new_lref_data (ctx, nmp, glabels[p->l1], p->l2 < 0 ? NULL : glabels[p->l2], (int64_t) p->disp);
       break;
     case K_EXPR:
@@ -487,18 +623,59 @@ static void run_case (char *line) {
             NULL);
   /* label machinery first: calling g prepares it, which is when lrefs get their values */
   int jok = 1;
-  int64_t ltv[3] = {0, 0, 0};
+  int64_t ltv[MAXLAB] = {0}, lraw[MAXLAB] = {0};
+  compute_places ();
   if (have_g >= 0) {
     int64_t (*g) (int64_t, int64_t) = (int64_t (*) (int64_t, int64_t)) items[have_g].it->addr;
-    for (int k = 0; k < 3; k++) ltv[k] = g (k + 1, 0);
-    for (int k = 0; k < 3; k++)
-      if (g (0, ltv[k]) != 100 + k) jok = 0;
+    int64_t raw[MAXLAB];
+    for (int k = 0; k < gnlab; k++) raw[k] = g (k + 1, 0);
+    for (int k = 0; k < gnlab; k++)
+      if (expected_ret (k) >= 0) {
+        int64_t got = g (0, raw[k]);
+        if (got != expected_ret (k)) jok = 0;
+        if (getenv ("C14_DEBUG") != NULL)
+          fprintf (stderr, "L%d laddr %llx: jmpi returns %lld, expected %d\n", k, (unsigned long long) raw[k],
+                   (long long) got, expected_ret (k));
+      }
+    /* the address of a label = the address of its place (jumping to what laddr gives for an earlier label of the
+       same place was checked just above) */
+    for (int k = 0; k < gnlab; k++) ltv[k] = raw[place_of (k)];
+    memcpy (lraw, raw, sizeof (raw));
   }
+  /* per lref item: the addresses of its labels.  Any label of the same place may stand for a label (see
+     compute_places); the pair that explains the stored value is taken, else the canonical one (and LR says bad) */
+  static int64_t ka1[MAXITEMS], ka2[MAXITEMS];
+  static int kmatch[MAXITEMS];
+  if (have_g >= 0)
+    for (int i = 0; i < nitems; i++) {
+      struct pitem *p = &items[i];
+      int64_t v;
+      if (p->k != K_LREF) continue;
+      memcpy (&v, p->it->addr, 8);
+      ka1[i] = ltv[p->l1];
+      ka2[i] = p->l2 < 0 ? 0 : ltv[p->l2];
+      kmatch[i] = 0;
+      for (int j1 = 0; j1 < gnlab && !kmatch[i]; j1++) {
+        if (!same_place (j1, p->l1)) continue;
+        for (int j2 = 0; j2 < (p->l2 < 0 ? 1 : gnlab) && !kmatch[i]; j2++) {
+          if (p->l2 >= 0 && !same_place (j2, p->l2)) continue;
+          int64_t a2 = p->l2 < 0 ? 0 : lraw[j2];
+          if ((uint64_t) v == (uint64_t) lraw[j1] - (uint64_t) a2 + p->disp) {
+            ka1[i] = lraw[j1];
+            ka2[i] = a2;
+            kmatch[i] = 1;
+          }
+        }
+      }
+    }
   printf ("ok A");
   for (int i = 0; i < nitems; i++)
     if (items[i].it != NULL && items[i].it->addr != NULL) printf (" %d:%llx", i, (unsigned long long) items[i].it->addr);
-  if (have_g >= 0)
-    for (int k = 0; k < 3; k++) printf (" L%d:%llx", k, (unsigned long long) ltv[k]);
+  if (have_g >= 0) {
+    for (int k = 0; k < gnlab; k++) printf (" L%d:%llx", k, (unsigned long long) ltv[k]);
+    for (int i = 0; i < nitems; i++)
+      if (items[i].k == K_LREF) printf (" K%d:%llx:%llx", i, (unsigned long long) ka1[i], (unsigned long long) ka2[i]);
+  }
   printf (" P");
   int head = -1;
   for (int i = 0; i < nitems; i++) {
@@ -532,12 +709,16 @@ static void run_case (char *line) {
       if (p->k != K_LREF) continue;
       int64_t v, want;
       memcpy (&v, p->it->addr, 8);
-      want = p->l2 < 0 ? (int64_t) ((uint64_t) ltv[p->l1] + p->disp)
-                       : (int64_t) ((uint64_t) ltv[p->l1] - (uint64_t) ltv[p->l2] + p->disp);
-      if (v == want)
-        printf (" %d:ok", i);
-      else
+      want = (int64_t) ((uint64_t) ka1[i] - (uint64_t) ka2[i] + p->disp);
+      /* the value is also a working jump target: (value - disp [+ address of l2]) enters the code at l1 */
+      int64_t (*g) (int64_t, int64_t) = (int64_t (*) (int64_t, int64_t)) items[have_g].it->addr;
+      int64_t target = (int64_t) ((uint64_t) v - p->disp + (uint64_t) ka2[i]);
+      if (v != want)
         printf (" %d:bad(%lld)", i, (long long) (v - want));
+      else if (expected_ret (p->l1) >= 0 && g (0, target) != expected_ret (p->l1))
+        printf (" %d:badjump", i);
+      else
+        printf (" %d:ok", i);
     }
   }
   printf ("\n");
